@@ -411,6 +411,36 @@ def r_timestamp_backwards(doc, rng):
                     yield 'timestamp of family %d group %d sample %d below its predecessor' % (fi, gi, k), with_group(doc, fi, gi, out)
 
 
+# (previous, current) timestamps of two consecutive samples, current EARLIER by 1 ns … 500 ns at epoch-sized seconds — below
+# the resolution of a double there (≈ 238 ns) — in the aaaa.bbbb form with nine and with fewer fractional digits
+NS_PAIRS = [('1700000000.000000001', '1700000000'), ('1700000000.000000001', '1700000000.000000000'),
+            ('1700000000.000000100', '1700000000.000000050'), ('1700000000.0000001', '1700000000'),
+            ('1700000000.0000001', '1700000000.00000005'), ('1700000000.000000500', '1700000000.000000499'),
+            ('1700000000.0000005', '1700000000.00000025'), ('1700000000.00000024', '1700000000.0000001'),
+            ('1700000000.000000500', '1700000000'), ('1700000000.9999999', '1700000000.99999985'),
+            ('1700000001', '1700000000.999999999'), ('1700000001.000000000', '1700000000.9999999'),
+            ('-1700000000', '-1700000000.000000100'), ('-1699999999.9999999', '-1700000000'),
+            ('17.000000002', '17.000000001'), ('0.000000002', '0.000000001'), ('1700000000.00000010', '1700000000.0000000')]
+
+
+def r_timestamp_backwards_ns(doc, rng):
+    for fi, f in enumerate(doc.fams):
+        if f.typ == 'info':
+            continue
+        for gi, g in enumerate(f.groups):
+            n = len(g.samples)
+            if n < 2:
+                continue
+            for hi, lo in NS_PAIRS:
+                for k in range(1, n):
+                    out = [copy.deepcopy(x) for x in g.samples]
+                    first = lo if lo.startswith('-') else lo.split('.')[0]
+                    for i, s in enumerate(out):
+                        s.ts = first if i < k - 1 else (hi if i == k - 1 else lo)
+                    yield ('timestamp of family %d group %d sample %d earlier than its predecessor by nanoseconds (%s after %s)'
+                           % (fi, gi, k, lo, hi)), with_group(doc, fi, gi, out)
+
+
 def r_timestamp_partial(doc, rng):
     for fi, f in enumerate(doc.fams):
         allg = [(gi, g) for gi, g in enumerate(f.groups)]
@@ -487,6 +517,7 @@ RULES = [
     ('counter-like-negative', r_counter_like_negative), ('info-not-one', r_info_not_one),
     ('stateset-bad-value', r_stateset_bad_value), ('stateset-missing-label', r_stateset_missing_label),
     ('quantile-out-of-range', r_quantile_out_of_range), ('timestamp-backwards', r_timestamp_backwards),
+    ('timestamp-backwards', r_timestamp_backwards_ns),
     ('timestamp-partial', r_timestamp_partial), ('duplicate-label', r_duplicate_label),
     ('exemplar-ineligible', r_exemplar_ineligible), ('exemplar-too-long', r_exemplar_too_long),
 ]
